@@ -162,14 +162,17 @@ def _real_kills(cs, d, state, work, root, argv, S, ctx0, prior, child_prior, cap
 
     envx = {"VF_NOW": str(NOW), "TZ": "UTC"}
     fresh()
-    rc, counts = strace.count_syscalls("bare:create", argv[0:1] + argv[1:], os.path.join(d, "count.log"), extra_env=envx)
+    rc, counts = strace.count_syscalls("bare:create", argv[0:1] + argv[1:], os.path.join(d, "count.log"), which="write,rename,mkdir,sendfile,copy_file_range,unlink,link,ftruncate", extra_env=envx)
     if rc not in (0, 10, 11):
         cs.skip("strace-reference-exit-%s" % rc)
         return
     R = hist.listing(root)
-    pts = [("write", n) for n in range(1, counts.get("write", 0) + 1)] + [("rename", n) for n in range(1, counts.get("rename", 0) + 1)] + [("mkdir", n) for n in range(1, counts.get("mkdir", 0) + 1)]
+    pts = [(c, n) for c in ("write", "rename", "mkdir") for n in range(1, counts.get(c, 0) + 1)]
+    # system calls the unchanged tool does not make at all while committing; when they occur every one is a kill point
+    rare = [(c, n) for c in ("sendfile", "copy_file_range", "unlink", "link", "ftruncate") for n in range(1, counts.get(c, 0) + 1)]
     rng.shuffle(pts)
-    for call, n in sorted(pts[:cap]):
+    rng.shuffle(rare)
+    for call, n in sorted(pts[:cap] + rare[:cap]):
         fresh()
         rc = strace.kill_at("bare:create", argv, call, n, extra_env=envx)
         if rc != -9:
